@@ -108,6 +108,10 @@ class IdealNet(torch.nn.Module):
         # smallest distance (px) of any local-peak target to a tie line (exactly half-way between two grid cells):
         # there the ideal map has two equal maxima and a strict local-maximum detector legitimately finds none.
         self.min_tie = float("inf")
+        # frames whose maps carry a negative halo around every peak (what real networks do: ringing next to a peak). The halo is
+        # centred on the peak, so it moves no maximum; it only makes some map values negative. Used by batch-independence
+        # checks only (never by the accuracy oracles).
+        self.ringing = set()
 
     def _tie(self, pts, S):
         for p in pts:
@@ -133,17 +137,24 @@ class IdealNet(torch.nn.Module):
             animals = self.scene_frames.get(fit[0], []) if fit is not None else []
             self.fits.append(fit)
             given = [to_given(a, fit) for a in animals]
+            ring = fit is not None and fit[0] in self.ringing
+
+            def halo(m, pts_):
+                return m - 0.12 * bumps(list(pts_), H, W, S, self.sigma * 2.5) if ring else m
+
             if self.kind == "single":
                 pts = given[0] if given else [None] * self.n_nodes
-                outs.append(bumps(list(pts), H, W, S, self.sigma))
+                outs.append(halo(bumps(list(pts), H, W, S, self.sigma), pts))
             elif self.kind == "centroid":
                 cm = torch.zeros((1, len(range(0, H, S)), len(range(0, W, S))))
+                hl = torch.zeros_like(cm)
                 for g in given:
                     c = centroid_of(g, self.anchor)
                     if c is not None:
                         self._tie([c], S)
                         cm = torch.maximum(cm, bumps([c], H, W, S, self.sigma))
-                outs.append(cm)
+                        hl = torch.maximum(hl, bumps([c], H, W, S, self.sigma * 2.5))
+                outs.append(cm - 0.12 * hl if ring else cm)
             elif self.kind == "centered":
                 best, bd = None, None
                 for g in given:
@@ -154,7 +165,7 @@ class IdealNet(torch.nn.Module):
                     if bd is None or d < bd:
                         best, bd = g, d
                 pts = list(best) if best is not None else [None] * self.n_nodes
-                outs.append(bumps(pts, H, W, S, self.sigma))
+                outs.append(halo(bumps(pts, H, W, S, self.sigma), pts))
             else:
                 from sleap_nn.data.confidence_maps import generate_multiconfmaps
                 from sleap_nn.data.edge_maps import generate_pafs
